@@ -24,6 +24,8 @@ type Env struct {
 	params    map[string]bool // names that are parameters (not results / lets)
 	prevVals  map[*ssa.Phi]Val // step clauses: header values of the loop's phis
 	prevState *State
+	entryVals  map[*ssa.Phi]Val // atentry(e): header phis as they were when the loop was entered
+	entryState *State
 	stepFrom  *ssa.BasicBlock   // step clauses: the source block of the back edge
 	strong    map[string]string // strong(name): "self" and function-typed parameters
 }
@@ -96,6 +98,18 @@ func (fx *fnExec) eval(e *Expr, env *Env) TV {
 			return TV{Sc{"false", SBool}, tBool}
 		case "nil":
 			return TV{Sc{"0", SInt}, types.Typ[types.UntypedNil]}
+		}
+		if env.fr != nil && env.at != nil && !env.atEnd {
+			// a parameter that the loop re-assigns: inside loop clauses its name denotes the loop-carried value
+			if _, isParam := env.vars[e.Name]; isParam && env.params[e.Name] {
+				for _, v := range env.fr.names[e.Name] {
+					if phi, ok := v.(*ssa.Phi); ok && phi.Block() == env.at {
+						if pv, ok := env.fr.vals[phi]; ok {
+							return TV{pv, phi.Type()}
+						}
+					}
+				}
+			}
 		}
 		if v, ok := env.vars[e.Name]; ok {
 			return v
@@ -450,6 +464,30 @@ func (fx *fnExec) evalCall(e *Expr, env *Env) TV {
 		env2 := *env
 		env2.cur = env.old
 		return fx.eval(e.Args[0], &env2)
+	case "atentry": // atentry(e): e with the loop's header phis (and the heap) as they were when the loop was entered
+		if env.entryVals == nil || env.fr == nil {
+			panic(contractErr("atentry() outside a loop clause"))
+		}
+		cur := map[*ssa.Phi]Val{}
+		for phi, v := range env.entryVals {
+			if old, ok := env.fr.vals[phi]; ok {
+				cur[phi] = old
+			}
+			env.fr.vals[phi] = v
+		}
+		env2 := *env
+		env2.cur = env.entryState
+		env2.prevVals = nil
+		env2.entryVals = nil
+		r := fx.eval(e.Args[0], &env2)
+		for phi := range env.entryVals {
+			if old, ok := cur[phi]; ok {
+				env.fr.vals[phi] = old
+			} else {
+				delete(env.fr.vals, phi)
+			}
+		}
+		return r
 	case "prev":
 		if env.prevVals == nil || env.fr == nil {
 			panic(contractErr("prev() outside a loop step clause"))
